@@ -491,6 +491,10 @@ pub struct MintCase {
     /// config extension, 2 = naming this config and this config's extension (wrong signer), 3 = a regular badge under its own config
     #[serde(default)]
     pub foreign: u8,
+    /// initialize_reward_v2 only: 1 = the reward mint is one of the pool's OWN mints (the pool is created over it first);
+    /// 2 = as 1, and the mint's token badge is deleted between creating the pool and offering the mint as reward
+    #[serde(default)]
+    pub own_mint_reward: u8,
     /// 0 initialize_pool_v2 (as one of the two mints), 1 initialize_pool_with_adaptive_fee, 2 initialize_reward_v2
     pub offered_to: u8,
 }
@@ -687,7 +691,7 @@ pub fn check_mint(c: &MintCase, l: &mut Local) -> Result<(), String> {
             return Err(format!("initialize_token_badge for this config succeeded with another config's badge authority signing (variant {})", c.foreign % 4));
         }
     }
-    let eff = MintCase { badge: badge_exists, ..c.clone() };
+    let mut eff = MintCase { badge: badge_exists, ..c.clone() };
     let accepted = match c.offered_to % 3 {
         0 => w.init_pool(cfg, &m, &other, ts, 1u128 << 64).is_ok(),
         1 => {
@@ -695,11 +699,28 @@ pub fn check_mint(c: &MintCase, l: &mut Local) -> Result<(), String> {
             w.init_pool_adaptive(cfg, &m, &other, 1064, ts, auth, 1u128 << 64, None).is_ok()
         }
         _ => {
-            let (a, b2) = (w.create_spl_mint(), w.create_spl_mint());
-            let p = w.init_pool(cfg, &a, &b2, ts, 1u128 << 64).map_err(|o| format!("harness: plain pool refused {:?}", o.result))?;
-            w.init_reward(p, &m, true).is_ok()
+            let own = if c.own_mint_reward % 3 != 0 { w.init_pool(cfg, &m, &other, ts, 1u128 << 64).ok() } else { None };
+            match own {
+                Some(p) => {
+                    l.count("reward_offered_over_the_pools_own_mint");
+                    if c.own_mint_reward % 3 == 2 && badge_exists {
+                        let ix = w.ix_delete_token_badge(cfg, &key);
+                        if w.exec(&ix).ok() {
+                            eff.badge = false;
+                            l.count("badge_deleted_before_the_reward");
+                        }
+                    }
+                    w.init_reward(p, &m, true).is_ok()
+                }
+                None => {
+                    let (a, b2) = (w.create_spl_mint(), w.create_spl_mint());
+                    let p = w.init_pool(cfg, &a, &b2, ts, 1u128 << 64).map_err(|o| format!("harness: plain pool refused {:?}", o.result))?;
+                    w.init_reward(p, &m, true).is_ok()
+                }
+            }
         }
     };
+    let badge_exists = eff.badge;
     let allowed = model_allows(&eff, &offered);
     let kinds: std::collections::BTreeSet<u16> = read_extension_types(&offered).map(|v| v.into_iter().map(|(t, _)| t).collect()).unwrap_or_default();
     if read_extension_types(&offered).is_none() {
@@ -745,13 +766,13 @@ fn mint_case() -> BoxedStrategy<MintCase> {
         prop_oneof![2 => Just(1u8), 1 => Just(2u8), 1 => Just(0u8)],
         prop_oneof![12 => Just(0u8), 1 => 1u8..40],
         any::<bool>(),
-        (0u8..3, prop_oneof![3 => Just(0u8), 1 => 1u8..4]),
+        (0u8..3, prop_oneof![3 => Just(0u8), 1 => 1u8..4], prop_oneof![1 => Just(0u8), 1 => Just(1u8), 2 => Just(2u8)]),
     )
-        .prop_map(|(token2022, native_2022, freeze_authority, mut extensions, default_state, truncate, badge, (offered_to, foreign))| {
+        .prop_map(|(token2022, native_2022, freeze_authority, mut extensions, default_state, truncate, badge, (offered_to, foreign, own_mint_reward))| {
             // an extension type appears at most once in a mint the token program could have produced
             let mut seen = std::collections::BTreeSet::new();
             extensions.retain(|e| seen.insert(e.ty));
-            MintCase { token2022, native_2022, freeze_authority, extensions, default_state, truncate, badge, foreign, offered_to }
+            MintCase { token2022, native_2022, freeze_authority, extensions, default_state, truncate, badge, foreign, own_mint_reward, offered_to }
         })
         .boxed()
 }
@@ -765,7 +786,7 @@ pub fn def() -> CheckDef {
                published bounds; numeric setters and pool creation must accept <=> in bounds.  (b) Token-2022 mint bytes assembled from known and unknown \
                extension type numbers with well-formed or wrong lengths, truncation, freeze authority, default-account-state values, native-2022 key, with or \
                without a token badge issued by the config's own badge authority (one case in four: after ANOTHER config's badge authority tried to issue one for this config \
-               - which must fail - or issued one under its own config), offered to initialize_pool_v2 / initialize_pool_with_adaptive_fee / initialize_reward_v2: success => the stated admission \
+               - which must fail - or issued one under its own config; for rewards also over one of the pool's OWN mints, with the badge deleted after the pool was created), offered to initialize_pool_v2 / initialize_pool_with_adaptive_fee / initialize_reward_v2: success => the stated admission \
                rule allows the mint (refusals of allowed mints are counted as generator health, not violations).  Non-trivial = (a) a sequence with a value \
                rejected at / accepted on a bound, (b) a Token-2022 mint with >=2 extensions incl. a badge-gated one.",
         assumptions: vec!["nsvm runtime as in DESIGN.md §5", "mint bytes are built directly (the domain of the admission check); malformed TLV may already be refused by the token program or Anchor"],
